@@ -1,4 +1,4 @@
-EXTRA_IMPORTS = ["Combine", "MergeFull", "ShareFull", "ShareWeak", "ComposeInst", "ComposeFull", "MonSound"]
+EXTRA_IMPORTS = ["Combine", "MergeFull", "ShareFull", "ShareWeak", "ComposeInst", "ComposeFull", "MonSound", "ShareCS"]
 OPS += [("merge", "{α : Type} (n : Nat)", "Merge.machine α n", "MergeFull.merge_safe n s hs", "MergeFull")]
 SHARE = '''/-- `share`: proved for environments in which the source does not deliver from inside one of share's own deliveries
 (`noNestedFanout`, the restriction C12 makes in its own quantifier). -/
@@ -51,7 +51,24 @@ theorem C04_share_protocol {α : Type} :
     ∀ s, SReach (Share.machine α) s → ∀ v ∈ s.g.ph.viols, (∃ k, v = Viol.afterTerm k) ∨ (∃ k, v = Viol.afterDispose k) :=
   fun s hs => (ShareWeak.share_safe_weak s hs).1
 
-'''+(PIPE % dict(n=4))+(ORACLE % dict(n=4))+'''/-- `combine!`: the full statement is FALSE (known findings KF2, KF3: the sink's Pull / Terminate / Error are also sent to members that
+'''+(PIPE % dict(n=4))+(ORACLE % dict(n=4))+'''/-- `share` under the wider cross-sink environment (`SemCS.lean`): the ONLY C04 deviation is a message to an upstream that has ended, and that
+message is always a Pull — share never sends `Terminate`/`Error` to an upstream that is not live (known finding KF5d is exactly this
+Pull; `Inv/ShareCS.lean`). -/
+theorem C04_share_cross_sink_partial {α : Type} :
+    (∀ s, CSReach (Share.machine α) s → (∀ v ∈ s.g.viols, v.prop = 4 → ∃ i, v = Viol.upNotLive i .ended)) ∧
+    (∀ s s', CSReach (Share.machine α) s → opStep (Share.machine α) s = some s' →
+      ∀ i u, s'.tr = .out (.srcUp i u) :: s.tr → u = .pull ∨ s.g.ph.srcPh i = .live) := by
+  refine ⟨?_, ShareCS.share_cs_stray_is_pull⟩
+  intro s hs v hm h4
+  obtain ⟨hv, hx, _⟩ := ShareCS.share_safe_cs s hs
+  unfold G.viols at hm
+  rw [hx, List.nil_append] at hm
+  rcases hv v hm with ⟨k, rfl⟩ | ⟨k, rfl⟩ | ⟨i, rfl⟩
+  · simp [Viol.prop] at h4
+  · simp [Viol.prop] at h4
+  · exact ⟨i, rfl⟩
+
+'''+'''/-- `combine!`: the full statement is FALSE (known findings KF2, KF3: the sink's Pull / Terminate / Error are also sent to members that
 have ended, and a Pull broadcast continues after a nested disposal; witnesses in `Thm/Counterexamples.lean`). What is proved: those
 messages to non-live members are the ONLY phase-level violations — every member is subscribed exactly once and never after the output
 is over. -/
@@ -59,7 +76,18 @@ theorem C04_combine_partial {α : Type} (n : Nat) :
     ∀ s, SReach (Combine.machine α n) s → ∀ v ∈ s.g.ph.viols, ∃ i p, v = Viol.upNotLive i p :=
   fun s hs => (Combine.combine_safe_partial n s hs).1
 '''
-EXTRA["05"] = SHARE % ("05", 5, 5) + (PIPE % dict(n=5)) + (ORACLE % dict(n=5)) + '''/- `combine!`: C05 is FALSE for this operator (known finding KF1: an upstream `Error` is counted as a completion; the sink never
+EXTRA["05"] = SHARE % ("05", 5, 5) + (PIPE % dict(n=5)) + (ORACLE % dict(n=5)) + '''/-- `share` under the wider cross-sink environment: C05 holds — every sink that is still attached receives the upstream's Error
+(`Inv/ShareCS.lean`) -/
+theorem C05_share_cross_sink {α : Type} : ∀ s, CSReach (Share.machine α) s → SafeFor 5 s := by
+  intro s hs
+  obtain ⟨hv, hx, hp⟩ := ShareCS.share_safe_cs s hs
+  refine ⟨?_, fun h => absurd h (by decide)⟩
+  intro v hm
+  unfold G.viols at hm
+  rw [hx, List.nil_append] at hm
+  rcases hv v hm with ⟨k, rfl⟩ | ⟨k, rfl⟩ | ⟨i, rfl⟩ <;> simp [Viol.prop]
+
+'''+'''/- `combine!`: C05 is FALSE for this operator (known finding KF1: an upstream `Error` is counted as a completion; the sink never
 receives it). There is no history class on which the property says anything and holds, hence no `_partial` theorem; the witness is
 `C05_combine_counterexample` in `Thm/Counterexamples.lean`. -/
 '''
